@@ -50,9 +50,9 @@ Fixpoint depth (v : value) : nat :=
 Section Tlv.
   Variable write_head : head -> bytes.
   Variable read_head : bytes -> hres.
-  (** how a non-string header in map-key position is treated: [true] = no
-      claim (CBOR: ugorji reads any header's argument as a byte count),
-      [false] = decode error (MessagePack) *)
+  (** how anything but a string header in map-key position is treated: [true]
+      = no claim (CBOR: ugorji reads the low five bits of ANY byte there as a
+      length), [false] = decode error (MessagePack) *)
   Variable lax_keys : bool.
 
   Fixpoint enc (v : value) : bytes :=
@@ -79,7 +79,7 @@ Section Tlv.
         match take n r with Some (k, r') => Some (Some (k, r')) | None => Some None end
     | HOk HNull _ | HOk (HArr _) _ => None
     | HOk _ _ => if lax_keys then None else Some None
-    | HErr => Some None
+    | HErr => if lax_keys then None else Some None
     | HUnsup => None
     end.
 
@@ -157,13 +157,13 @@ Section Tlv.
   Definition fuel_for (bs : bytes) : nat := S (length bs + length bs).
 
   (** Top-level decode of one item from a byte string; trailing bytes are
-      returned (the Go decoder ignores them).  Repeated map keys keep their
-      last value, as in a Go map ([value_norm]). *)
+      returned (the Go decoder ignores them).  A stream map with a repeated
+      key is outside the model (see [dicts_ok]). *)
   Definition decode_raw (bs : bytes) : dres := dec max_nesting (fuel_for bs) bs.
 
   Definition decode (bs : bytes) : dres :=
     match decode_raw bs with
-    | DOk v r => DOk (value_norm v) r
+    | DOk v r => if dicts_ok v then DOk v r else DUnsup
     | e => e
     end.
 
@@ -174,12 +174,12 @@ Section Tlv.
     match read_head bs with
     | HOk (HArr n) r =>
         match dec_seq (pred max_nesting) (fuel_for bs) n r with
-        | SOk l r' => SOk (map value_norm l) r'
+        | SOk l r' => if forallb dicts_ok l then SOk l r' else SUnsup
         | e => e
         end
     | HOk (HMap n) r =>
         match dec_seq (pred max_nesting) (fuel_for bs) (2 * n) r with
-        | SOk l r' => SOk (map value_norm l) r'
+        | SOk l r' => if forallb dicts_ok l then SOk l r' else SUnsup
         | e => e
         end
     | HOk HNull r => SOk [] r
